@@ -1299,6 +1299,9 @@ func vxCompare(ty *cqlspec.Type, want cqlspec.Value, rv reflect.Value, path stri
 		case reflect.Map:
 			for i, e := range want.Elems {
 				x := rv.MapIndex(reflect.ValueOf(ty.Names[i]))
+				if !x.IsValid() && e.Null {
+					continue // a field the value does not carry (it ends early) has no key: null
+				}
 				if !x.IsValid() {
 					return fmt.Errorf("%s: field %q missing from map", path, ty.Names[i])
 				}
